@@ -132,16 +132,25 @@ def zeroCell (c : ArgCell) : ArgCell := { c with id := 0 }
 /-- `Assignment.DeepCopy`: same content, new pointees -/
 def Assignment.deepCopy (a : Assignment) : Assignment := a.mapCells zeroCell
 
-/-- `Option.DeepCopy`: new slices and pointees — and **`Default` is not copied** -/
+/-- `Option.DeepCopy`: new slices and pointees, every member copied (since /repo 71b1811 `Default`
+    too; `deepCopyValue` of 1572d8b is the identity on values) -/
 def Opt.deepCopy (o : Opt) : Opt :=
   { name := o.name, comments := o.comments, args := o.args, argsId := 0,
-    assignments := o.assignments.map Assignment.deepCopy, dflt := none }
+    assignments := o.assignments.map Assignment.deepCopy, dflt := o.dflt }
 
 /-- `Builder.DeepCopy` (after /repo ea8a40d: `For` and `Factories` are copied too): every member is
-    copied; every option goes through `Option.DeepCopy`, which still drops `Default` -/
+    copied; every option goes through `Option.DeepCopy` -/
 def Builder.deepCopy (b : Builder) : Builder :=
   { for_ := b.for_, pkg := b.pkg, name := b.name, properties := b.properties,
     constructor := { args := b.constructor.args, assignments := b.constructor.assignments.map Assignment.deepCopy },
     options := b.options.map Opt.deepCopy, factories := b.factories }
+
+/-! `DeepCopy` as it was before /repo 71b1811 — **`Default` was not copied** — kept so that the former
+    defect (a duplicated option / builder lost its defaults) stays a checked statement -/
+
+def Opt.deepCopyPreFix (o : Opt) : Opt := { o.deepCopy with dflt := none }
+
+def Builder.deepCopyPreFix (b : Builder) : Builder :=
+  { b.deepCopy with options := b.options.map Opt.deepCopyPreFix }
 
 end Cog.Builder
